@@ -228,6 +228,9 @@ fn breadth(ctx: &Ctx, devs: Vec<Act>, thorough: bool) -> Vec<LifeCfg> {
     for (s, ms) in [(0u64, Some(2u64)), (255, Some(2)), (511, Some(2)), (767, Some(2)), (1022, None)] {
         v.push(cfg(ctx, Hid::S24, vec![hw(10, 4)], s, ms, 0, vec![]));
     }
+    for (s, ms) in [(1021u64, Some(5u64)), (4093, None)] {
+        v.push(cfg(ctx, Hid::S16, vec![hw(10, 4), hw(2, 4)], s, ms, 0, vec![]));
+    }
     for (s, ms) in [(31u64, Some(2u64)), (4095, None)] {
         v.push(cfg(ctx, Hid::S16, vec![hw(2, 4), hw(10, 8)], s * 0 + if s == 31 { 1023 } else { 4095 }, ms, 0, vec![]));
     }
@@ -455,6 +458,51 @@ pub fn length_boundary_cfgs(ctx: &Ctx, devs: Vec<Act>) -> Vec<LifeCfg> {
                     out.push(cfg(ctx, Hid::S32, params.clone(), 0, Some(2), 1, devs.clone()));
                     params.reverse();
                     out.push(cfg(ctx, Hid::S32, params, 0, Some(2), 0, vec![]));
+                }
+            }
+            // heights tuned so that the signature is the longest one that still fits, and the shortest one
+            // that does not (one height unit = 32 bytes): per-level increments 0 / +3 / +8 over height 2
+            let base: Vec<Param> = idx.iter().map(|k| hw(2, ws[*k])).collect();
+            let base_len = m.hss_sig_len(&base) as i64;
+            let need = (65535 - base_len).div_euclid(32);
+            for target in [need, need + 1] {
+                if target < 0 || target > 8 * levels as i64 {
+                    continue;
+                }
+                // smallest number of raised levels: greedy over +8 then +3, remainder must vanish
+                let mut best: Option<Vec<u32>> = None;
+                for eights in 0..=levels as i64 {
+                    let rest = target - 8 * eights;
+                    if rest < 0 || rest % 3 != 0 {
+                        continue;
+                    }
+                    let threes = rest / 3;
+                    if eights + threes <= levels as i64 {
+                        let mut hs = vec![2u32; levels];
+                        for h in hs.iter_mut().take(eights as usize) {
+                            *h = 10;
+                        }
+                        for h in hs.iter_mut().skip(eights as usize).take(threes as usize) {
+                            *h = 5;
+                        }
+                        best = Some(hs);
+                        break;
+                    }
+                }
+                if let Some(hs) = best {
+                    // taller trees go to the levels with the largest Winternitz parameter (cheapest)
+                    let mut order: Vec<usize> = (0..levels).collect();
+                    order.sort_by_key(|i| std::cmp::Reverse(idx[*i]));
+                    let mut heights = vec![2u32; levels];
+                    let mut sorted_hs = hs.clone();
+                    sorted_hs.sort_by_key(|h| std::cmp::Reverse(*h));
+                    for (slot, h) in order.iter().zip(sorted_hs.iter()) {
+                        heights[*slot] = *h;
+                    }
+                    let params: Vec<Param> = idx.iter().zip(heights.iter()).map(|(k, h)| hw(*h, ws[*k])).collect();
+                    if m.heights(&params).iter().filter(|h| **h == 10).count() <= 3 {
+                        out.push(cfg(ctx, Hid::S32, params, 0, Some(1), 0, vec![]));
+                    }
                 }
             }
         }
